@@ -16,7 +16,7 @@ try:
         r = subprocess.run(["/venv/bin/python", "-B", os.path.join(d, "demo.py")], env=env, cwd=tree, capture_output=True, text=True, timeout=1800)
         return r.returncode, (r.stdout + r.stderr)[-400:]
     rc, out = demo(); res["demo_clean_rc"] = rc; res["demo_clean_tail"] = out[-200:]
-    ap = subprocess.run(["git", "-C", tree, "apply", os.path.join(d, "patch.diff")], capture_output=True, text=True)
+    pf = os.path.join(d, "patch_rebased.diff") if os.path.exists(os.path.join(d, "patch_rebased.diff")) else os.path.join(d, "patch.diff"); res["patch_file"] = os.path.basename(pf); ap = subprocess.run(["git", "-C", tree, "apply", pf], capture_output=True, text=True)
     res["patch_applies"] = ap.returncode == 0
     if ap.returncode != 0:
         ap = subprocess.run(["git", "-C", tree, "apply", "-3", os.path.join(d, "patch.diff")], capture_output=True, text=True)
